@@ -93,6 +93,9 @@ class MAUPITIConv2d(nn.Conv2d, MAUPITIModule):
                 self.b_quantizer.dequantize = False
                 int_bias = self.b_quantizer(conv.bias, self.s_x, self.s_w)
                 int_bias = cast(torch.Tensor, int_bias)
+            else:
+                # bias-free layer: behaves as a layer with an all-zero integer bias
+                int_bias = torch.zeros(self.out_channels, device=self.device)
 
         self.scale, self.shift = self._integer_approximation(self.s_w, self.s_x, self.s_y,
                                                              int_bias)
@@ -105,7 +108,7 @@ class MAUPITIConv2d(nn.Conv2d, MAUPITIModule):
                     self.bias = cast(torch.Tensor, self.bias)
                     self.bias.copy_(int_bias)
             else:
-                self.add_bias = None
+                self.add_bias = torch.zeros(1, self.out_channels, 1, 1, device=self.device)
 
         # Done here to avoid the reshape op in fwd
         self.scale = self.scale.view(1, self.out_channels, 1, 1)
@@ -119,7 +122,7 @@ class MAUPITIConv2d(nn.Conv2d, MAUPITIModule):
                                               ).view(1, self.out_channels, 1, 1))
         else:
             with torch.no_grad():
-                self._zero_point = (self.bias -
+                self._zero_point = ((0 if self.bias is None else self.bias) -
                                     self.clip_inf *
                                     torch.sum(self.weight, dim=(1, 2, 3)
                                               ).view(1, self.out_channels, 1, 1))
